@@ -194,8 +194,7 @@ theorem mem_moduleList (mt : Str → Str → Bool) (base : Str) (o : ScanOptions
     (R : List ImportRec) (m : Str) :
     m ∈ moduleList mt base o pre P R ↔
       m ∈ P ∨ (o.excludeExternal = false ∧
-        (∃ i ∈ R, isInternal i.importee pre = false ∧ isInfix base i.importee = false ∧
-          m ∈ i.importee :: i.importeeParents) ∧
+        (∃ i ∈ R, isInternal i.importee pre = false ∧ m ∈ i.importee :: i.importeeParents) ∧
         (o.externalExclusions.isEmpty = true ∨ isExcluded mt o.externalExclusions m = false)) := by
   unfold moduleList
   by_cases hx : o.excludeExternal = true
@@ -203,22 +202,16 @@ theorem mem_moduleList (mt : Str → Str → Bool) (base : Str) (o : ScanOptions
   · have hx' : o.excludeExternal = false := by simpa using hx
     simp only [hx', Bool.false_eq_true, if_false, true_and]
     have hadd : m ∈ dedup (P ++ (R.filter fun i => !isInternal i.importee pre).flatMap
-          fun i => if isInfix base i.importee = true then [] else i.importee :: i.importeeParents) ↔
-        m ∈ P ∨ ∃ i ∈ R, isInternal i.importee pre = false ∧ isInfix base i.importee = false ∧
-          m ∈ i.importee :: i.importeeParents := by
+          fun i => i.importee :: i.importeeParents) ↔
+        m ∈ P ∨ ∃ i ∈ R, isInternal i.importee pre = false ∧ m ∈ i.importee :: i.importeeParents := by
       rw [mem_dedup, List.mem_append]
       apply or_congr Iff.rfl
       simp only [List.mem_flatMap, List.mem_filter, Bool.not_eq_true']
       constructor
       · rintro ⟨i, ⟨hi, hint⟩, hm⟩
-        by_cases hb : isInfix base i.importee = true
-        · simp [hb] at hm
-        · simp only [hb, Bool.false_eq_true, if_false] at hm
-          exact ⟨i, hi, hint, by simpa using hb, hm⟩
-      · rintro ⟨i, hi, hint, hb, hm⟩
-        refine ⟨i, ⟨hi, hint⟩, ?_⟩
-        simp only [hb, Bool.false_eq_true, if_false]
-        exact hm
+        exact ⟨i, hi, hint, hm⟩
+      · rintro ⟨i, hi, hint, hm⟩
+        exact ⟨i, ⟨hi, hint⟩, hm⟩
     by_cases he : o.externalExclusions.isEmpty = true
     · simp only [he, if_true, true_or, and_true]
       exact hadd
@@ -340,7 +333,7 @@ theorem moduleList_internal (mt : Str → Str → Bool) (base : Str) (o : ScanOp
     (hm : isInternal m pre = true) : m ∈ moduleList mt base o pre P R ↔ m ∈ P := by
   rw [mem_moduleList]
   constructor
-  · rintro (h | ⟨-, ⟨i, hi, hext, -, hmem⟩, -⟩)
+  · rintro (h | ⟨-, ⟨i, hi, hext, hmem⟩, -⟩)
     · exact h
     · exfalso
       have : m ∈ chain i.importee := by
@@ -480,7 +473,7 @@ theorem externals_included_lemma (mt : Str → Str → Bool) (base rootName : St
     (hI : convertAll (scanParsed mt base rootName mp entries o) (absolutePrefix rootName mp)
       ((scanParsed mt base rootName mp entries o).allModules.filter fun m => isInternal m (internalPrefix rootName mp)) = .ok I)
     (i : ImportRec) (hi : i ∈ I) (hext : isInternal i.importee (internalPrefix rootName mp) = false) :
-    (retained mt o (internalPrefix rootName mp) i = true → isInfix base i.importee = false →
+    (retained mt o (internalPrefix rootName mp) i = true →
       (∀ s ∈ withParents i.importee, s ∈ g.nodes) ∧
       (isInternal i.importer (internalPrefix rootName mp) = true → (i.importer, i.importee) ∈ g.importPairs)) ∧
     (retained mt o (internalPrefix rootName mp) i = false →
@@ -500,12 +493,12 @@ theorem externals_included_lemma (mt : Str → Str → Bool) (base rootName : St
   obtain ⟨f, hf, hg1, hg2⟩ := convertAll_good parsed _ _ I hI i hi
   have hXP : i.importer ∈ parsed.allModules := by rw [hg1]; exact hfi f hf
   constructor
-  · intro hret hinf
+  · intro hret
     have hiR : i ∈ retainImports mt o pre I := (mem_retainImports mt o pre I i).2 ⟨hi, hret⟩
     have hYM : i.importee ∈ moduleList mt base o pre parsed.allModules (retainImports mt o pre I) := by
       rw [mem_moduleList]
       right
-      refine ⟨hx, ⟨i, hiR, hext, hinf, List.mem_cons_self⟩, ?_⟩
+      refine ⟨hx, ⟨i, hiR, hext, List.mem_cons_self⟩, ?_⟩
       rcases retained_true_cases mt o pre i hx hext hret with h | h
       · exact Or.inl h
       · exact Or.inr h.1
@@ -528,7 +521,7 @@ theorem externals_included_lemma (mt : Str → Str → Bool) (base rootName : St
     have hnot : ¬ NodeOf none (moduleList mt base o pre parsed.allModules (retainImports mt o pre I)) i.importee := by
       rintro ⟨m, hm, hYm⟩
       rw [mem_moduleList] at hm
-      rcases hm with hm | ⟨-, ⟨j, hj, hjext, -, hmj⟩, -⟩
+      rcases hm with hm | ⟨-, ⟨j, hj, hjext, hmj⟩, -⟩
       · exact hnp m hm hYm
       · obtain ⟨hjI, hjret⟩ := (mem_retainImports mt o pre I j).1 hj
         have hjp := (a1 j hj).2
@@ -578,7 +571,7 @@ theorem externals_retained_lemma (mt : Str → Str → Bool) (base rootName : St
     (hI : convertAll (scanParsed mt base rootName mp entries o) (absolutePrefix rootName mp)
       ((scanParsed mt base rootName mp entries o).allModules.filter fun m => isInternal m (internalPrefix rootName mp)) = .ok I)
     (i : ImportRec) (hi : i ∈ I) (hext : isInternal i.importee (internalPrefix rootName mp) = false)
-    (hret : retained mt o (internalPrefix rootName mp) i = true) (hinf : isInfix base i.importee = false) :
+    (hret : retained mt o (internalPrefix rootName mp) i = true) :
     (∀ s ∈ withParents (flattenNode (shiftedLimit o mp) i.importee), s ∈ g.nodes) ∧
     (isInternal (flattenNode (shiftedLimit o mp) i.importer) (internalPrefix rootName mp) = true →
       isInternal (flattenNode (shiftedLimit o mp) i.importee) (internalPrefix rootName mp) = false →
@@ -599,7 +592,7 @@ theorem externals_retained_lemma (mt : Str → Str → Bool) (base rootName : St
   have hYM : i.importee ∈ moduleList mt base o pre parsed.allModules (retainImports mt o pre I) := by
     rw [mem_moduleList]
     right
-    refine ⟨hx, ⟨i, hiR, hext, hinf, List.mem_cons_self⟩, ?_⟩
+    refine ⟨hx, ⟨i, hiR, hext, List.mem_cons_self⟩, ?_⟩
     rcases retained_true_cases mt o pre i hx hext hret with h | h
     · exact Or.inl h
     · exact Or.inr h.1
